@@ -210,6 +210,26 @@ def differential_case(case):
         sc1, sc2 = m1.score(X, y1), m2.score(X, Kname)
         if not abs(sc1 - sc2) <= 1e-9 * max(1.0, abs(sc1)) + 1e-7:
             v.append(violation("score_differs_named_vs_precomputed", {"named": sc1, "precomputed": sc2}, **where))
+        # a named (or callable) kernel / metric is what the model trains and scores with even when something is passed as y
+        # (documented: y is only read with 'precomputed'): a decoy matrix and a label-like vector
+        if y1 is None and mode == "fit":
+            rs = np.random.RandomState(seed + 5)
+            B = rs.normal(size=(n, n))
+            decoys = {"other_matrix": np.abs(B + B.T) * (1 - np.eye(n)) if is_metric else B @ B.T, "label_vector": np.arange(n) % 2}
+            for dname, decoy in decoys.items():
+                m3, _, _ = C.build(name, named, X, seed)
+                try:
+                    m3.fit(X, decoy)
+                    s3 = _state(m3)
+                    bad = next((k for k in s1 if k not in s3 or not np.array_equal(s1[k], s3[k])), None)
+                    sc3 = m3.score(X, decoy)
+                except Exception as e:  # noqa
+                    v.append(violation("named_affinity_fails_when_y_is_given", {"y": dname, "error": repr(e)[:200]}, y=dname, **where))
+                    continue
+                if bad is not None:
+                    v.append(violation("named_affinity_replaced_by_y", {"y": dname, "attribute": bad, "without_y": s1[bad], "with_y": s3.get(bad)}, y=dname, **where))
+                elif not sc3 == m1.score(X):
+                    v.append(violation("named_affinity_replaced_by_y", {"y": dname, "call": "score", "without_y": m1.score(X), "with_y": sc3}, y=dname, **where))
     return {"v": v[:3], "nt": [case], "stats": {"evals": 1}, "out": [(name, float(sc1))], "sample": {"estimator": name, "named": named, "precomputed": pre}}
 
 
